@@ -31,6 +31,30 @@ CLAIMS = {
  "C09": ("Same simulation for Col/ColMut (items = cell positions) plus indexing: it[i] is the i-th remaining cell for i < len and panics otherwise, also when i*(1+skip) wraps; col(c)/col_mut(c) of an owned array or view are WF and stand for the column's cells top to bottom, c out of range panics; yielded positions are distinct and inside the buffer. Correspondence as C08 with every column index 0..C and index steps.",
          "split_first/last(_mut), get_unchecked(_mut), checked slice index modelled as window arithmetic; Col and ColMut share one transcription",
          "Lean 4 proof (cursor invariant + simulation, index arithmetic incl. wrap-around) + differential correspondence"),
+ "C04": ("General theorems about the two forms every in-place operation is proved to have (C13-C17): `gather buf (v.mapCells g)` (cell permutation) and `v.updCells buf h` (overwrite): the length is kept, every root-buffer position that is not a cell of the view keeps its content, and cell (c,r) receives exactly old cell g(c,r) resp. h(c,r) - with the same cell function as for an owned array (t.asView); positions and coordinates of a view are in bijection; every position handed out by rows_mut/col_mut/cells_mut is a cell of the view. Correspondence: every mutating operation on views at interior/edge/nested positions of all parents <= 4x4 with the whole parent compared.",
+         "the per-operation statements (swap family, fill, copies, sorts, translate, flips) live in C13-C17 and are re-checked by their own checks; this check covers the frame lemmas and the whole-parent correspondence",
+         "Lean 4 proof (frame condition built into the spec form; bijection pos/coord) + differential correspondence"),
+ "C10": ("Simulation theorems for FlattenExact over the row cursor (Cells/CellsMut and the IntoIterator forms): under Flat.WF the cursor stands for front ++ flatten(rows) ++ back; next, next_back, nth(j), nth_back(j) for every j, len/size_hint, last, fold, rfold and any word of them return what the ideal sequence returns; the internal loops end within two iterations; the debug_assert in nth never fires; no panic, no ub; cells() of an owned array is 0..C*R in order, of a view all its cell positions row-major, each exactly once. Correspondence: all shapes <= 3x3, views, nested, slice-built, exhaustive + random words with huge arguments, write-through via cells_mut/iter_mut.",
+         "core::slice::Iter/IterMut modelled by specification (SliceIter); uses the C08 row-cursor theorems",
+         "Lean 4 proof (simulation of the ideal sequence through a two-level cursor) + differential correspondence"),
+ "C13": ("Theorems for the three implementors (TooDee overrides, TooDeeViewMut::swap_rows override, trait defaults over rows_mut().nth): swap / swap_rows / swap_cols with in-range names equal the stated exchange as a cell permutation of the receiver (hence every other root cell unchanged; equal names = identity); row_pair_mut returns the two row windows in order, disjoint; fill writes the value to every cell and nothing else; any out-of-range index (and r1 = r2 for row_pair_mut) panics; never ub; both modes; all indices < 2^64. Correspondence: all shapes <= 3x3, all index pairs in {0..dim+1, 2^64-1}^2, root / Ext (defaults only) / views / nested views.",
+         "split_at_mut, swap_with_slice, ptr::swap(_nonoverlapping), slice::fill modelled by specification",
+         "Lean 4 proof (refinement of each implementation to one cell-permutation spec) + differential correspondence"),
+ "C14": ("Theorems: copy_from_slice/clone_from_slice and copy_from_toodee/clone_from_toodee (trait defaults and TooDee overrides): sizes equal => destination cell (c,r) becomes source cell (c,r) (row-major for slices; any source view incl. strided) and nothing else changes; sizes differ => panic; all shapes incl. (0,0). copy_within (after the fix: overflow-free bounds checks): rectangles fit => destination rectangle = prior source rectangle for every relative placement (three arms: bottom-up, top-down, per-row memmove), everything else unchanged; otherwise panic. Correspondence: all shapes <= 3x3, all receivers, all source rectangles x destination corners incl. 2^64-1.",
+         "copy_from_slice/clone_from_slice/slice::copy_within/chunks_exact/zip modelled by specification; copy and clone variants share one transcription",
+         "Lean 4 proof (three loop invariants, pointwise buffer characterisation) + differential correspondence"),
+ "C16": ("Theorems: build_swap_trace on any permutation p returns transpositions (i<j<n) whose application maps xs to ys with ys[k] = xs[p[k]], every unchecked index in range (in-place reuse handled); the stable side sort (List.mergeSort model of sort_by) yields a permutation that orders the keys and keeps ties in original order; applying the trace to every row = permuting whole columns (new column j = old column p[j] on every row; frame untouched); sort_by_row = that with the stable permutation, sort_unstable_by_row = that for every permutation the side sort may return; out-of-range row panics. Correspondence: all shapes <= 4x4 x every row index x 6 variants x root/Ext/view, keys over a 3-letter alphabet, wide arrays (40-70 columns) so unstable sorts really reorder ties; for unstable variants the harness's permutation is reconstructed and checked against the sort contract.",
+         "slice::sort_by (the unique stable sort) modelled by List.mergeSort; sort_unstable_by is a model input constrained by its contract (sorted permutation); the (usize,&T)->(usize,usize) transmute is outside the model",
+         "Lean 4 proof (in-place permutation-to-transpositions invariant, mergeSort stability, fold of cell permutations) + differential correspondence"),
+ "C17": ("Theorems: applying the swap trace with the implementor's swap_rows (any implementation satisfying the C13 spec) permutes whole rows (new row j = old row p[j]); sort_by_col collects the column through the C09 cursor and equals that with the stable permutation; the unstable variant for every permutation; key variants delegate to these (after the fix); out-of-range column panics. Correspondence as C16 for the five column variants.",
+         "as C16",
+         "Lean 4 proof + differential correspondence"),
+ "C18": ("Theorems over the abstract document model of src/serde.rs: deserialize(serialize(t)) = ok t for every owned array with the invariant and every round-tripping element codec; serialising a view (dims + cells row-major) and deserialising gives the owned copy. Correspondence: all shapes <= 4x4 (+1xN, Nx1) x four transports (str, slice, reader, value) x {u32, cell}, views and slice-built views, on the real serde_json.",
+         "serde / serde_json tokenisation, number handling and the derived Serialize are assumed components (exercised for real through all four transports)",
+         "Lean 4 proof (round-trip law over an abstract document) + differential correspondence"),
+ "C19": ("Theorem for every document: the visitor returns an error, or an array with the shape invariant whose dimensions and cells are stated by entries of the document (a repeated data key overwrites) - never a panic; overflowing, length-mismatching and one-zero-dimension documents are rejected. Correspondence: grammar-generated documents (missing/duplicate/unknown/escaped keys, boundary and ill-typed dimension values, wrong lengths and element types, non-objects) through all four transports, parsed by an independent JSON reader in the driver.",
+         "serde_json parsing assumed; serde_json::Value de-duplicates keys (last wins), which the driver mirrors for the value transport",
+         "Lean 4 proof (decision logic over all documents) + differential correspondence"),
 }
 
 ORDER = ["C01", "C02", "C03", "C04", "C05", "C06", "C07", "C08", "C09", "C10", "C11", "C12", "C13", "C14", "C15", "C16", "C17", "C18", "C19", "C20"]
